@@ -3,7 +3,7 @@ import itertools
 from common import *
 
 RULE = ("all binding patterns (local/global/weak) of 0-5 symbols (quick) or 0-8 symbols (thorough) exhaustively, plus random tables of "
-        "up to 60 symbols with REL/RELA tables of up to 40 entries whose swap callback is forwarded, in all 4 configurations; symbols "
+        "up to 60 symbols with REL/RELA tables of up to 40 entries whose swap callback is forwarded (entry size of the relocation table = the entry structure, or larger by 4-16 bytes), in all 4 configurations; symbols "
         "carry distinct values so that content identity can be checked. Non-trivial = at least one non-local symbol precedes a local "
         "one (so at least one swap happens).")
 ASSUMPTIONS = ["the table has a null symbol first (as every table built through add_symbol has)", "symbol indices below 2^24 in ELF32 relocations"]
@@ -26,10 +26,11 @@ def meta_from_lines(lines):
     return {"syms": syms, "rels": rels, "cfg": cfg, "fwd": fwd}
 
 
-def mk_case(cid, cfg, binds, rels, rela, forward):
+def mk_case(cid, cfg, binds, rels, rela, forward, rpad=0):
+    """[rpad]: the relocation table's entry size exceeds the entry structure by that many bytes (filler after each entry)"""
     c32 = cfg[0] == "32"
     es = 16 if c32 else 24
-    res = (12 if rela else 8) if c32 else (24 if rela else 16)
+    res = ((12 if rela else 8) if c32 else (24 if rela else 16)) + rpad
     lines = ["ctor plain", "create %s %s" % cfg,
              "addsec " + hx(b".strtab"), "secset 2 type 3",
              "addsec " + hx(b".symtab"), "secset 3 type 2", "secset 3 entsize %d" % es, "secset 3 link 2",
@@ -39,6 +40,8 @@ def mk_case(cid, cfg, binds, rels, rela, forward):
         lines.append("symadd 3 0 %d %d %d 0 %d" % (1000 + i, i, (b << 4) + (i % 5), i % 7))
     for r in rels:
         lines.append("reladd 4 %d %d %d 1 5" % (1 if rela else 0, 4 * r, r))
+        if rpad:
+            lines.append("dapp 4 " + hx(b"\xee" * rpad))
     lines.append("arrange 3 %s" % ("4" if forward else "65535"))
     n = len(binds) + (1 if binds else 0)
     lines.append("symnum 3")
@@ -110,7 +113,7 @@ def generate(rng, tier):
         for pat in itertools.product([0, 1, 2], repeat=n):
             cfg = CFGS[k % 4]
             rels = [rng.randint(0, n) for _ in range(min(n + 1, 4))] if n else []
-            cases.append(mk_case("e%d" % k, cfg, list(pat), rels, k % 2 == 1, True))
+            cases.append(mk_case("e%d" % k, cfg, list(pat), rels, k % 2 == 1, True, rpad=(0, 0, 8)[k % 3]))
             k += 1
     nr = 150 if tier == "quick" else 1500
     for i in range(nr):
@@ -118,13 +121,14 @@ def generate(rng, tier):
         n = rng.randint(1, 60)
         binds = [rng.choice([0, 0, 1, 2]) for _ in range(n)]
         rels = [rng.randint(0, n) for _ in range(rng.randint(0, 40))]
-        cases.append(mk_case("r%d" % i, cfg, binds, rels, i % 2 == 0, rng.random() < 0.85))
+        cases.append(mk_case("r%d" % i, cfg, binds, rels, i % 2 == 0, rng.random() < 0.85, rpad=rng.choice([0, 0, 4, 8, 8, 16])))
     return cases
 
 
 def distribution(cases):
-    d = {"tables": len(cases), "symbols": 0, "relocations": 0, "forwarded": 0, "with_swaps": 0}
+    d = {"tables": len(cases), "symbols": 0, "relocations": 0, "forwarded": 0, "with_swaps": 0, "padded_relocation_entries": 0}
     for c in cases:
+        d["padded_relocation_entries"] += any(l.startswith("dapp 4 ") for l in c.lines)
         d["symbols"] += len(c.meta["syms"]); d["relocations"] += len(c.meta["rels"])
         d["forwarded"] += c.meta["fwd"]; d["with_swaps"] += nontrivial(c)
     return d
